@@ -1,26 +1,29 @@
 import CelmaVerif.Lemmas.Spelling
 import CelmaVerif.Lemmas.RulesComplete
+import CelmaVerif.Lemmas.RulesLevel
 /-
   C03 — every command line that obeys the declared rules is accepted.
   `Obeys` judges the order-sensitive rules in the documented sense: an exclusion forbids *later* key
   occurrences of the excluded argument, a requirement is met by a *later* key occurrence.
-  Partial for the same reasons as C01 (forms in `Spells`; LevelCounter arguments; the argument
-  destinations outside the modelled fragment).
+  Partial for the same reasons as C01 (forms not yet in `Spells`: a flag group closed by a
+  value-taking key, the `--` separator; destinations outside the modelled fragment).
 -/
 namespace CelmaVerif.Props.C03
 open CelmaVerif CelmaVerif.ProgArgs CelmaVerif.Keys
 
 /-- **Completeness.**  For a well-formed configuration, whatever other arguments, checks and
     constraints it defines: an abstract command line that obeys every declared rule (uses no
-    deprecated and no LevelCounter argument — stage), in any covered spelling, is evaluated without
-    error. -/
+    deprecated argument), in any covered spelling, is evaluated without
+    error (LevelCounter values must obey the stateful increment/assignment rule `LevelValuesOk`,
+    which is also necessary: `level_rules_sound`). -/
 theorem C03_complete_partial (cfg : Cfg) (wf : cfg.WellFormed) (inits : List DVal)
     (hin : cfg.args.length ≤ inits.length) (us : List Use) (ws : List Word) (prog : Word)
     (sp : Spells cfg none us ws) (ob : Obeys cfg inits us)
     (notDeprecated : ∀ u ∈ us, ∀ d, cfg.args[u.arg]? = some d → d.deprecated = false)
-    (noLevel : ∀ u ∈ us, ∀ d, cfg.args[u.arg]? = some d → d.kind ≠ .level) :
+    (levels : ∀ (i : Nat) (d : ArgDef) (v : DVal), cfg.args[i]? = some d → d.kind = .level →
+      inits[i]? = some v → LevelValuesOk d (levelOf v) false false (valsOf i us)) :
     ∃ hf, evalArguments cfg (cfg.initState inits) {} (prog :: ws) = .ok hf := by
-  obtain ⟨hf, he⟩ := rules_complete_partial wf hin ob notDeprecated noLevel
+  obtain ⟨hf, he⟩ := rules_complete wf hin ob notDeprecated levels
   have hl : (cfg.initState inits).lastArg = none := rfl
   exact ⟨hf, by rw [spells_eval cfg (cfg.initState inits) prog (by rw [hl]; exact sp)]; exact he⟩
 
